@@ -4,7 +4,7 @@
 // Input ($VERIF_IN): lines `race <seed> <milliseconds> <dispatchers>`. Output: `ok serves=N mutations=M` or
 // `bad <what>` (first inconsistency seen). A data race makes the race detector print its report and fail the test.
 //
-// What a handler checks when it is invoked (with an in-harness reference matcher that knows nothing of regexps):
+// Requests go through mux.ToHandler (the adapter the servers use). What a handler checks when it is invoked (with an in-harness reference matcher that knows nothing of regexps):
 //   - the pattern it was registered under matches the ENTIRE path of the request it received;
 //   - the variables it got are the corresponding path segments;
 //   - no permanently registered pattern that matches the path is longer;
@@ -30,6 +30,8 @@ import (
 	"github.com/plgd-dev/go-coap/v3/message/codes"
 	"github.com/plgd-dev/go-coap/v3/message/pool"
 	"github.com/plgd-dev/go-coap/v3/mux"
+	"github.com/plgd-dev/go-coap/v3/net/responsewriter"
+	udpClient "github.com/plgd-dev/go-coap/v3/udp/client"
 	"verifharness/internal/lp"
 )
 
@@ -139,6 +141,9 @@ func runRace(seed int64, d time.Duration, dispatchers int) string {
 					report("default-although-a-route-matches pattern=%q path=%q", q, rs.path)
 				}
 			}
+			if len(req.RouteParams.Vars) != 0 {
+				report("variables-on-default path=%q got=%v", rs.path, req.RouteParams.Vars)
+			}
 		})
 	}
 	for _, p := range permanent {
@@ -194,6 +199,7 @@ func runRace(seed int64, d time.Duration, dispatchers int) string {
 	}()
 	// dispatchers
 	pl := pool.New(0, 0)
+	adapter := mux.ToHandler[*udpClient.Conn](r)
 	for k := 0; k < dispatchers; k++ {
 		wg.Add(1)
 		go func(k int) {
@@ -214,8 +220,8 @@ func runRace(seed int64, d time.Duration, dispatchers int) string {
 						msg.AddOptionBytes(message.URIPath, []byte(seg))
 					}
 				}
-				req := &mux.Message{Message: msg, RouteParams: new(mux.RouteParams)}
-				r.ServeCOAP(&nullWriter{}, req)
+				// through the adapter the servers use (it builds the per-request mux.Message / RouteParams)
+				adapter(responsewriter.New[*udpClient.Conn](pl.AcquireMessage(context.Background()), nil), msg)
 				if c := atomic.LoadInt32(&rs.calls); c != 1 {
 					report("handlers-invoked=%d path=%q", c, path)
 				}
